@@ -64,6 +64,17 @@ func (api *API) mapEncodeBasedOnType(
 	switch value.Kind() {
 	case reflect.Ptr:
 		if valueBigInt, ok := valueI.(*big.Int); ok {
+			// the same values are refused as in the binary form: they are not uint256 numbers (and the decoder does not
+			// accept their hex strings)
+			switch {
+			case valueBigInt == nil:
+				return nil, ierrors.Errorf("unexpected nil pointer for type %T", valueI)
+			case valueBigInt.Sign() == -1:
+				return nil, ierrors.WithStack(serializer.ErrUint256NumNegative)
+			case len(valueBigInt.Bytes()) > serializer.UInt256ByteSize:
+				return nil, ierrors.WithStack(serializer.ErrUint256TooBig)
+			}
+
 			return EncodeUint256(valueBigInt), nil
 		}
 
